@@ -1,5 +1,6 @@
 from __future__ import annotations
 
+import copy
 import random
 import re
 import string
@@ -246,8 +247,10 @@ class SigmaFilter(SigmaRuleBase):
                 break  # prefix must not collide with identifiers that already exist in the rule
 
         # Rename every filter detection identifier with the shared prefix.
+        # Every rule gets its own copy of the filter detections: they are processed (e.g. by field
+        # name transformations of a pipeline) together with the rule they were added to.
         for original_cond_name, condition in self.filter.detections.items():
-            rule.detection.detections[prefix + "_" + original_cond_name] = condition
+            rule.detection.detections[prefix + "_" + original_cond_name] = copy.deepcopy(condition)
 
         # Rewrite the filter condition string so that every identifier/pattern token is
         # prefixed.  This handles:
